@@ -183,7 +183,62 @@ DOCS = [
         {"type": "identity", "id": "identity--e0a3f0c4-0b9a-11ee-be56-0242ac120002", "created": "2020-01-01T00:00:00.000Z",
          "modified": "2020-01-01T00:00:00.000Z", "name": "n", "identity_class": "individual"}]}, "2.1"),
 ]
+
+
+def _version_scoped_extensions():
+    """an old-style custom extension registered for ONE version only: under the other version its name means nothing"""
+    from stix2 import properties as SP
+    if stix2.registry.class_for_type("x-c14-only21-ext", "2.1", "extensions") is None:
+        @stix2.v21.CustomExtension("x-c14-only21-ext", [("n", SP.IntegerProperty(required=True))])
+        class Only21:
+            pass
+
+        @stix2.v20.CustomExtension("x-c14-only20-ext", [("n", SP.IntegerProperty(required=True))])
+        class Only20:
+            pass
+
+
+_version_scoped_extensions()
+OD20X = {"type": "observed-data", "id": "observed-data--" + UU, "created": "2020-01-01T00:00:00.000Z", "modified": "2020-01-01T00:00:00.000Z",
+         "first_observed": "2020-01-01T00:00:00Z", "last_observed": "2020-01-01T00:00:00Z", "number_observed": 1,
+         "objects": {"0": {"type": "file", "name": "f", "extensions": {"x-c14-only21-ext": {"n": "7"}}}}}
+REFUSED_STRICT = {len(DOCS), len(DOCS) + 1, len(DOCS) + 3}       # documents a strict parse under the detected / named version must refuse (checked without asking the parser)
+DOCS += [
+    (OD20X, "2.0"),
+    ({"type": "file", "id": "file--" + UU, "name": "f", "extensions": {"x-c14-only20-ext": {"n": "7"}}}, "2.1"),
+    # and where the name IS registered for the version, the content is that version's
+    (dict(OD20X, objects={"0": {"type": "file", "name": "f", "extensions": {"x-c14-only20-ext": {"n": "7"}}}}), "2.0"),
+    ({"type": "file", "name": "f", "extensions": {"x-c14-only21-ext": {"n": 7}}}, "2.0"),
+]
 NDOC = len(DOCS)
+
+
+def nested_versions(o, acc=None):
+    """the spec versions of every library object inside o (extensions, embedded objects, bundle / container members)"""
+    acc = set() if acc is None else acc
+    if isinstance(o, stix2.base._STIXBase):
+        v = class_version(o)
+        if v is None:
+            for base in type(o).__mro__:
+                mod = getattr(base, "__module__", "")
+                if mod.startswith("stix2.v20"):
+                    v = "2.0"
+                    break
+                if mod.startswith("stix2.v21"):
+                    v = "2.1"
+                    break
+        acc.add(v)
+        for val in o._inner.values():
+            nested_versions(val, acc)
+    elif isinstance(o, dict):
+        for val in o.values():
+            nested_versions(val, acc)
+    elif isinstance(o, (list, tuple)):
+        for val in o:
+            nested_versions(val, acc)
+    return acc
+
+
 # what the library itself writes for version V is recognised as version V when no version is named
 PRODUCED = [
     (lambda: stix2.v21.Bundle(id="bundle--" + UU), "2.1"), (lambda: stix2.v20.Bundle(id="bundle--" + UU), "2.0"),
@@ -262,6 +317,18 @@ def run_entry_case(di, named, ep):
     ref = direct(doc)
     if ref is not None and class_version(ref) != want:
         return False                                # parse itself must interpret the content as the named / detected version
+    if di in REFUSED_STRICT and want == detected and ref is not None:
+        return False                                # an extension name registered for the other version only was honoured
+    if ref is not None and not is_bundle and nested_versions(ref) - {want}:
+        return False                                # something inside was built by the other version's classes
+    if di in REFUSED_STRICT and want == detected:
+        # with customization allowed the content is accepted, the foreign name stays custom content, nothing inside is of the other version
+        try:
+            lax = stix2.parse(json.loads(json.dumps(doc)), allow_custom=True, version=version)
+        except (STIXError, ValueError, TypeError):
+            return False
+        if not lax.has_custom or nested_versions(lax) - {want}:
+            return False
     if ep == 0:
         return True
     # stores add the members of a bundle one by one, each with the named version: the reference is a direct parse of each member
@@ -284,9 +351,18 @@ def run_entry_case(di, named, ep):
                 store.load_from_file("/in/data.json", version=version)
                 objs = store.query()
             elif ep == 1:
-                store = M.MemoryStore(allow_custom=False)
-                store.add(json.loads(json.dumps(doc)), version=version)
-                objs = store.query()
+                # the version a store was BUILT with governs its initial content only: an addition is read under the version it names
+                # (or detects), whatever the store, its sink or its source were built with
+                for built in (None, "2.0", "2.1"):
+                    store = M.MemoryStore(allow_custom=False, version=built)
+                    store.add(json.loads(json.dumps(doc)), version=version)
+                    objs = store.query()
+                    sink = M.MemorySink(allow_custom=False, version=built)
+                    sink.add(json.loads(json.dumps(doc)), version=version)
+                    if [type(o) for o in objs] != [type(o) for o in M.MemorySource(_store=True, stix_data=sink._data, allow_custom=False).query()]:
+                        return False
+                    if any(r is None for r in refs) or [type(o) for o in objs] != [type(r) for r in refs]:
+                        return False
             elif ep == 2:
                 store = M.MemoryStore(json.loads(json.dumps(doc)), allow_custom=False, version=version)
                 objs = store.query()
